@@ -504,6 +504,28 @@ def _impl(case):
         res["rewrite_same"] = _yaml_part(data) == _yaml_part(data2)
         res["deepcopy"] = model_obs(copy.deepcopy(m), case["spec"])
         res["pickle"] = model_obs(pickle.loads(pickle.dumps(m)), case["spec"])
+        # two occurrences of the kind in one file, told apart by name (and the second with a bounding box of its own): they come back as
+        # two objects with their own names; and two reads of one file give independent objects
+        try:
+            ma, mb = mk_model(case["spec"]), mk_model(case["spec"])
+            ma.name, mb.name = "first_occurrence", "second_occurrence"
+
+            def pair_obs(o):
+                a_, b_ = o["a"], o["b"]
+                return {"distinct": a_ is not b_, "names": [a_.name, b_.name],
+                        "same_values": repr(model_obs(a_, case["spec"])["values"]) == repr(model_obs(b_, case["spec"])["values"])}      # (repr: NaN equals NaN)
+            dpair = write_bytes({"a": ma, "b": mb}, mode)
+            res["pair"] = read_back(dpair, mode, pair_obs)
+
+            def rename(o):
+                o["a"].name = "renamed_in_first_read"
+                return o["a"].name
+            read_back(dpair, mode, rename)
+            res["pair_second_read"] = read_back(dpair, mode, lambda o: [o["a"].name, o["b"].name])
+        except _ReadFailed:
+            raise
+        except Exception as e:
+            res["pair_err"] = type(e).__name__ + ":" + str(e)[:120]
         if case["spec"]["model"] == "regions":
             conv_node = None
             from gwcs.converters.selector import RegionsSelectorConverter
@@ -588,6 +610,14 @@ def oracle(case, res):
                         "%s after %s (%s): %s" % (what, "ASDF round trip" if nm == "back" else nm, _mode_str(case["mode"]) if nm == "back" else "-", d)))
     if res.get("rewrite_same") is False:
         out.append(("rewrite", "writing the re-read %s gives a different tree: %s" % (what, res.get("rewrite_diff", ""))))
+    if "pair_err" in res:
+        out.append(("pair", "two occurrences of the %s in one file could not be written: %s" % (what, res["pair_err"])))
+    if "pair" in res:
+        pr = res["pair"]
+        if not pr["distinct"] or pr["names"] != ["first_occurrence", "second_occurrence"] or not pr["same_values"]:
+            out.append(("pair", "two occurrences of the model in one file come back as %s" % pr))
+        if res.get("pair_second_read") != ["first_occurrence", "second_occurrence"]:
+            out.append(("shared", "renaming a model read from a file changed what a second read of the same file returns: %s" % res.get("pair_second_read")))
     for nm in ("deepcopy", "pickle"):
         if nm + "_orig_after" in res:
             d = _diff(res["orig"], res[nm + "_orig_after"])
@@ -726,8 +756,8 @@ def _nax(s):
     return {"generic": s.get("naxes", 1), "frame2d": 2, "celestial": 2}.get(s["kind"], 1)
 
 
-def gen_model(rng):
-    k = rng.choice(list(MODEL_ARGS))
+def gen_model(rng, kind=None):
+    k = kind or rng.choice(list(MODEL_ARGS))
     s = {"model": k}
     if k in ("lm_array", "regions"):
         s["mask"] = [[rng.choice([0, 1, 2, 3]) for _ in range(4)] for _ in range(4)]
@@ -836,6 +866,18 @@ def gen_wcs(rng):
 
 def gen(rng, tier):
     q = tier == "quick"
+    # every model kind once (twice in the thorough tier) whatever the draws below: each converter is its own code
+    for _rep in range(1 if q else 2):
+        for kind in MODEL_ARGS:
+            mode = dict(rng.choice(MODES))
+            if rng.random() < 0.6:
+                mode["manifest"], mode["version"] = "1.4.0", "1.6.0"
+            spec = gen_model(rng, kind)
+            if kind == "sellmeier_zemax":
+                spec["P0"], spec["P"] = rng.choice([[0.9, 0.5], [1.0, 0.0], [0.9, 1.0]])      # pressure and reference pressure differ
+            if kind == "lm_dict":
+                spec["atol"] = rng.choice([1e-3, 0.25])                                      # not the constructor's default
+            yield {"what": "model", "mode": mode, "spec": spec}
     for i in range(70 if q else 1500):
         what = rng.choice(["frame", "frame", "model", "wcs", "wcs"])
         mode = dict(rng.choice(MODES))
